@@ -8,7 +8,8 @@
 (*   call    batch (<<key, q>> each), multi                                *)
 (*   prep    outcome  "skip" | "run" | "refuse" | "timeout"                *)
 (*   answer  q, result ("T"/"F"), to                                       *)
-(*   return  rows (<<key, text, ans, to, pto>> each), children             *)
+(*   return  rows (<<key, text, ans, to, pto>> each), children,            *)
+(*           cfg, cols (descriptive columns of each row)                   *)
 (*   raise   exc                                                           *)
 (* Each event must be matched by the Manager action of the same name with  *)
 (* the logged fields bound; what is not logged (which batch position an    *)
@@ -68,10 +69,21 @@ RowsMatch(rows, tab) ==
           /\ rows[i][1] = tab[i].key /\ rows[i][2] = tab[i].text /\ rows[i][3] = tab[i].ans
           /\ rows[i][4] = tab[i].to /\ rows[i][5] = tab[i].pto
 
+(* the descriptive columns of every row repeat the manager's configuration (signature size, number of     *)
+(* conditionals, operator, solvers, names of base and batch); the reported times are non-negative          *)
+StaticOK(e) ==
+    IF "cfg" \in DOMAIN e
+    THEN /\ Len(e.cols) = Len(e.rows)
+         /\ \A i \in DOMAIN e.cols :
+               /\ \A j \in 1..7 : e.cols[i][j] = e.cfg[j]
+               /\ e.cols[i][8] /\ e.cols[i][9]
+    ELSE TRUE
+
 TReturn ==
     /\ IsEvent("return")
     /\ CallReturn(E)
     /\ RowsMatch(Cur.rows, table')
+    /\ StaticOK(Cur)
     /\ Cur.children = 0                       \* no worker process is left behind
 
 TRaise == IsEvent("raise") /\ CallRaise
